@@ -26,6 +26,17 @@ files must read as the concatenation of the single files (`C18_several_files`); 
 (`fasta=`/`out_file=` by keyword, `pathlib.Path`, a generator of paths, flags as int / numpy bool,
 compiled regexes with flags), duplicate records, calls with hundreds of records or sequences of
 thousands of residues.
+
+Third pass (GAPS-C18.md, "Third pass"): (H) inputs with text before the first record — empty files (also the
+first, also all), files that hold line breaks only, blank lines before the first record of a file — are ordinary
+cases with a ground truth (they used to be "exotic: whatever the model reader makes of them", which hid the
+defect D50 of fasta.py:332); the declarative description is the unrestricted one (`c18-input`:
+`[eol, leading blank lines, records]` per file, `C18_fasta_input_parse_any`), a wrong reading is reported as
+`input-parse:text-before-first-record`; `;` comment lines before the first record; an input without any record
+must give an empty output file and no generator call (`C18_no_record_input_writes_empty_file`); every described
+input is also read file by file (`C18_input_depends_on_records_only`); (J) second calls: the file a call wrote is
+the input of a follow-up call (alone or next to a fresh file) whose targets must be the entries of the first
+output; (K) a call the reader refuses must leave the output path as it was.
 """
 from __future__ import annotations
 
@@ -52,7 +63,9 @@ RULE = (
     "options passed by keyword / positionally / omitted at their documented defaults, files as str/list/tuple, "
     "output file absent / stale / one of the inputs; fasta/out_file by keyword, pathlib.Path, generator of paths, "
     "int / numpy-bool flags, compiled regexes with re.I / re.X flags; duplicate records; a few calls with 150-400 "
-    "records or sequences of 400-2500 residues; ~4% of the cases with a scripted generator state: identity always / "
+    "records or sequences of 400-2500 residues; ~12% of the cases with empty files (first / between / last / all), "
+    "files of line breaks only, 1-3 blank lines or ';' comment lines before the first record of a file; ~4% of the "
+    "calls followed by a second call that reads the file just written; ~4% of the cases with a scripted generator state: identity always / "
     "for the first k in {1,5,99,100,101,150} calls / with probability 0.9 / never); "
     "distinct = distinct (per-protein site lists, reverse, concat, enzyme); non-trivial = at least one peptide "
     "with an interior of >= 2 residues (something is actually permuted); every tier adds an exhaustive sweep "
@@ -230,8 +243,29 @@ def gen_case(rng, exotic_ok=True, script=None, size=None):
             if rng.random() < 0.1:
                 text += eol
                 srecs[-1][2].append("")
+        lead = 0
+        if rng.random() < 0.06:          # blank lines before the first record of the file
+            lead = rng.choice([1, 1, 2, 3])
+            text = eol * lead + text
         files.append(text)
-        lay.append([EOLNAME[eol], srecs])
+        lay.append([EOLNAME[eol], lead, srecs])
+    pre_kind = "none"
+    if not size and rng.random() < 0.07:
+        # files without any record: empty, or line breaks only — first, between, last, or nothing else
+        pre_kind = rng.choice(["empty-first", "empty-first", "empty-any", "empty-any", "empty-any", "blank-only-file",
+                               "no-record-at-all"])
+        if pre_kind == "no-record-at-all":
+            files, lay, truth, multiline, dup = [], [], [], False, None
+        for _ in range(rng.choice([1, 1, 2]) if (files or pre_kind != "no-record-at-all") else 1):
+            eol = rng.choice(["\n", "\n", "\r\n", "\r"])
+            k = 0 if pre_kind.startswith("empty") else rng.randint(1, 3)
+            if pre_kind == "no-record-at-all":
+                k = rng.choice([0, 0, 1, 2])
+            pos = 0 if pre_kind == "empty-first" else rng.randrange(len(files) + 1)
+            files.insert(pos, eol * k)
+            lay.insert(pos, [EOLNAME[eol], k, []])
+            eols.append(eol)
+    nfiles = len(files)
     case = dict(
         files=files, truth=truth, regex=regex, cut=cut, block=block,
         compiled=(rng.random() < 0.2) or reflags != 0,
@@ -243,8 +277,18 @@ def gen_case(rng, exotic_ok=True, script=None, size=None):
         stale=gen_stale(rng) if rng.random() < 0.3 else None, out_is_input=rng.random() < 0.06,
         layout=lay, reflags=reflags, out_path=rng.random() < 0.15,
         flagform=rng.choice(["bool", "bool", "bool", "int", "npbool"]), script=script, dup=dup,
-        size=size or "ordinary",
+        size=size or "ordinary", chain=(not size and script is None and rng.random() < 0.04),
     )
+    if not size and truth and rng.random() < 0.025:
+        # text that is no record before the first record: `;` comment lines (the old FASTA convention) — dropped
+        # by the reader (`C18_reader_ignores_text_before_first_record`); the truth stays, the description no
+        # longer applies
+        e0 = {"lf": "\n", "crlf": "\r\n", "cr": "\r"}[lay[0][0]]
+        com = "".join(";" + "".join(rng.choice(DESCCH.replace(">", "")) for _ in range(rng.randint(0, 12))) + e0
+                      for _ in range(rng.randint(1, 2)))
+        files[0] = com + files[0]
+        case["layout"] = None
+        case["klass"] = "comment-lines-first"
     if script is not None and rng.random() < 0.85:
         case["reverse"] = False          # (reversal with a scripted generator: it must not be asked at all)
     if call == "omit":
@@ -267,17 +311,28 @@ def gen_case(rng, exotic_ok=True, script=None, size=None):
     return case
 
 
+def gen_refused(rng):
+    """(K) a call the reader refuses — a bare `>` as the last line is a record without a header line
+    (`IndexError`, model `none`) — with something at the output path in two cases of three"""
+    case = gen_case(rng, exotic_ok=False)
+    f = case["files"]
+    e = "\n" if not f[-1] or f[-1].endswith(("\n", "\r")) else rng.choice(["\n", "\r\n"])
+    f[-1] = f[-1] + e + ">"
+    case.update(klass="exotic:bare-header-last", truth=None, layout=None, chain=False, out_is_input=False,
+                stale=gen_stale(rng) if rng.random() < 0.67 else None)
+    return case
+
+
 def make_exotic(rng, case):
     """inputs at the edge of 'FASTA': the targets are whatever the (modelled) reader makes of them"""
-    kind = rng.choice(["empty-file", "only-empty", "leading-blank", "no-gt", "formfeed", "hyphen", "space-head",
-                       "unicode-break"])
+    kind = rng.choice(["no-gt", "formfeed", "hyphen", "space-head", "unicode-break", "blank-with-spaces"])
     f = case["files"]
-    if kind == "empty-file":
-        f.insert(rng.randrange(len(f) + 1), "")
-    elif kind == "only-empty":
-        case["files"] = [""] * rng.randint(1, 2)
-    elif kind == "leading-blank":
-        f[0] = "\n" + f[0]
+    if not f:
+        return
+    if kind == "blank-with-spaces":
+        # a first line of blanks is text before the first record (dropped); elsewhere it is a sequence line
+        i = rng.randrange(len(f))
+        f[i] = rng.choice([" ", "  ", "\t"]) + "\n" + f[i]
     elif kind == "no-gt":
         f[0] = f[0][1:]
     elif kind == "formfeed":
@@ -400,7 +455,8 @@ def run_impl(case, tmp):
             del kwargs["concatenate"]
     res["omitted"] = 4 - len(kwargs)
     # several files read together = the single files read one after the other (`C18_several_files`; real vs real)
-    if len(paths) > 1 and all(t.startswith(">") for t in case["files"]) and "in_entries" in res:
+    if len(paths) > 1 and (all(t.startswith(">") for t in case["files"]) or case.get("layout")) and \
+            "in_entries" in res:
         try:
             res["each_entries"] = [list(F._parse_protein(p)) for q in paths for p in F._parse_fasta_files(q)]
         except Exception as e:  # noqa: BLE001
@@ -417,6 +473,13 @@ def run_impl(case, tmp):
                 ret = mokapot.make_decoys(arg, out_arg, **kwargs)
     except Exception as e:  # noqa: BLE001
         res["error"] = type(e).__name__
+        res["draws_before_error"] = len(rec.draws)
+        # (K) what is at the output path after the refused call
+        if os.path.exists(out):
+            with open(out, newline="", encoding="utf-8") as fh:
+                res["out_after_error"] = fh.read()
+        else:
+            res["out_after_error"] = None
         return res
     res["draws"] = rec.draws
     res["ret_ok"] = ret is out_arg or (type(ret) is type(out_arg) and ret == out_arg)
@@ -460,6 +523,20 @@ def enz_wire(c, targets):
     return [Atom("class"), c["cut"], c["block"]]
 
 
+def lay3(l):
+    """file description `[eol, leading blank lines, records]` (cases recorded before the third pass: `[eol, records]`)"""
+    return l if len(l) == 3 else [l[0], 0, l[1]]
+
+
+def univ(t):
+    return t.replace("\r\n", "\n").replace("\r", "\n")
+
+
+def text_before_first_record(c):
+    """the joined input does not begin with `>`: an empty first file, blank or comment lines first (D50)"""
+    return not "\n".join(univ(t) for t in c["files"]).startswith(">")
+
+
 def in_scope(entries):
     """sequences for which the property promises a round trip: no blanks, no '>'"""
     return all(not (set(s) & WS) and ">" not in s for _, s in entries)
@@ -476,20 +553,34 @@ def eval_cases(chk, cases, light=False):
         shutil.rmtree(tmp, ignore_errors=True)
     # targets: ground truth by construction, or (exotic) the model's reading of the files
     lines = [req("c18-parse", c["files"]) for c in cases]
-    lay_idx = [k for k, c in enumerate(cases) if c.get("layout")]
-    lines += [req("c18-layout", [[Atom(e), recs] for e, recs in cases[k]["layout"]]) for k in lay_idx]
+    lay_idx = [k for k, c in enumerate(cases) if c.get("layout") is not None]
+    # the unrestricted description (`c18-input`); where it has the restricted shape of the second pass (no leading
+    # blank lines, every file with a record) the op `c18-layout` must give the same texts and proteins
+    lines += [req("c18-input", [[Atom(e), lead, recs] for e, lead, recs in map(lay3, cases[k]["layout"])])
+              for k in lay_idx]
+    lay2_idx = [k for k in lay_idx if cases[k]["layout"] and
+                all(lead == 0 and recs for _, lead, recs in map(lay3, cases[k]["layout"]))]
+    lines += [req("c18-layout", [[Atom(e), recs] for e, _, recs in map(lay3, cases[k]["layout"])]) for k in lay2_idx]
     resp = common.driver_batch(lines)
     model_targets = []
     for r in resp[:len(cases)]:
         model_targets.append(None if r.strip() == "reject-index" else [[a_str(n), a_str(s)] for n, s in dec1(r)])
     # the declarative description of the input: file texts and the proteins it denotes (`C18_fasta_input_parse`)
-    layout_out = {}
+    layout_out, layout2_out = {}, {}
     for k, r in zip(lay_idx, resp[len(cases):]):
         if r.strip().startswith("["):
-            texts, ents, ok = dec(r)
-            layout_out[k] = ([a_str(t) for t in texts], [[a_str(n), a_str(q)] for n, q in ents], a_bool(ok))
+            texts, ents, ok, parsed = dec(r)
+            parsed = None if isinstance(parsed, Atom) or not isinstance(parsed, list) else \
+                [[a_str(n), a_str(q)] for n, q in parsed]
+            layout_out[k] = ([a_str(t) for t in texts], [[a_str(n), a_str(q)] for n, q in ents], a_bool(ok), parsed)
         else:
             layout_out[k] = r.strip()
+    for k, r in zip(lay2_idx, resp[len(cases) + len(lay_idx):]):
+        if r.strip().startswith("["):
+            texts, ents, ok = dec(r)
+            layout2_out[k] = ([a_str(t) for t in texts], [[a_str(n), a_str(q)] for n, q in ents], a_bool(ok))
+        else:
+            layout2_out[k] = r.strip()
     lines, tags = [], []
     for k, (c, im) in enumerate(zip(cases, impl)):
         tg = c["truth"] if c["truth"] is not None else model_targets[k]
@@ -531,6 +622,7 @@ def eval_cases(chk, cases, light=False):
         {"model": model_out, "spec": spec_out, "run": run_out, "specfile": specfile_out,
          "rundefault": rundef_out, "calls": calls_out}[tag][k] = r.strip()
 
+    followups = []
     for k, (c, im) in enumerate(zip(cases, impl)):
         mt = model_targets[k]
         tg = c["truth"] if c["truth"] is not None else mt
@@ -540,10 +632,23 @@ def eval_cases(chk, cases, light=False):
             err = im.get("error") or im.get("in_error")
             if c["truth"] is not None:
                 chk.case(None, None)
-                chk.spec_violation(f"exception:{err}", dict(info, error=err, clause="make_decoys raised on a "
-                                                            "well-formed FASTA input"))
+                if text_before_first_record(c):
+                    chk.spec_violation("input-parse:text-before-first-record",
+                                       dict(info, error=err, expected=c["truth"],
+                                            clause="the reader raises on an input whose first record is preceded by "
+                                            "an empty file / blank or comment lines (C18_fasta_input_parse_any)"))
+                else:
+                    chk.spec_violation(f"exception:{err}", dict(info, error=err, clause="make_decoys raised on a "
+                                                                "well-formed FASTA input"))
             elif mt is None:
                 chk.reject(f"{c['klass']}:{err}")
+                # (K) the reader runs before the output path is opened: a refused call leaves it as it was
+                if "error" in im and not c.get("out_is_input"):
+                    chk.count("refused call: output path compared with its previous content")
+                    if im.get("out_after_error") != c.get("stale") or im.get("draws_before_error"):
+                        chk.corr_break("c18-run:refused-call-touched-output",
+                                       dict(info, impl=im.get("out_after_error"), model=c.get("stale"),
+                                            draws=im.get("draws_before_error")))
             else:
                 chk.case(None, None)
                 chk.corr_break("c18-parse", dict(info, impl=f"raised {err}", model=mt))
@@ -560,7 +665,12 @@ def eval_cases(chk, cases, light=False):
                 chk.case(None, None)
                 chk.corr_break("c18-layout", dict(info, model=lo))
                 continue
-            ltexts, lents, lhyp = lo
+            ltexts, lents, lhyp, lparsed = lo
+            l2 = layout2_out.get(k)
+            if l2 is not None and (isinstance(l2, str) or l2[0] != ltexts or l2[1] != lents or l2[2] != lhyp):
+                chk.case(None, None)
+                chk.corr_break("c18-layout:c18-input", dict(info, layout=l2, input=lo))
+                continue
             if ltexts != c["files"]:
                 # the description does not describe the files written here: a defect of this harness
                 chk.case(None, None)
@@ -574,17 +684,21 @@ def eval_cases(chk, cases, light=False):
                     continue
                 if im["in_entries"] != lents:
                     chk.case(None, None)
-                    chk.spec_violation("input-parse", dict(info, impl=im["in_entries"], expected=lents,
-                                                           clause="the reader does not return the proteins of the "
-                                                           "records of the input files (C18_fasta_input_parse)"))
+                    chk.spec_violation("input-parse:text-before-first-record" if text_before_first_record(c)
+                                       else "input-parse",
+                                       dict(info, impl=im["in_entries"], expected=lents,
+                                            clause="the reader does not return the proteins of the records of the "
+                                            "input files (C18_fasta_input_parse_any)"))
                     continue
-                if mt != lents:
+                if mt != lents or lparsed != lents:
                     chk.case(None, None)
                     chk.corr_break("c18-parse", dict(info, impl=im["in_entries"], model=mt, layout=lents))
                     continue
         if "each_entries" in im and im["each_entries"] != im["in_entries"]:
             chk.case(None, None)
-            chk.spec_violation("several-files", dict(info, impl=im["in_entries"], expected=im["each_entries"],
+            chk.spec_violation("input-parse:text-before-first-record"
+                               if any(not univ(t).startswith(">") for t in c["files"]) else
+                               "several-files", dict(info, impl=im["in_entries"], expected=im["each_entries"],
                                                      clause="files read together differ from the files read one "
                                                      "after the other (C18_several_files)"))
             continue
@@ -619,6 +733,17 @@ def eval_cases(chk, cases, light=False):
             chk.count("several files compared with the files read singly", "each_entries" in im)
             chk.count("duplicate_records", c.get("dup") or "none")
             chk.count("size", c.get("size", "ordinary"))
+            fl = [univ(t) for t in c["files"]]
+            chk.count("text before the first record",
+                      "none" if not text_before_first_record(c) else
+                      ("no record at all" if not tg else
+                       ("comment lines" if c.get("klass") == "comment-lines-first" else
+                        ("empty first file" if fl[0] == "" else
+                         ("blank lines" if fl[0].lstrip("\n").startswith(">") or not fl[0].strip("\n") else "other")))))
+            chk.count("files without a record (empty / line breaks only)",
+                      sum(1 for t in fl if not t.strip("\n")))
+            chk.count("some file begins with blank lines", any(t.startswith("\n") and t.strip("\n") for t in fl))
+            chk.count("second call on the file just written", c.get("klass") == "second-call")
             chk.count("out_file", "is-input" if c.get("out_is_input") else
                       ("absent" if c.get("stale") is None else
                        ("stale-longer" if len(c["stale"]) > len(im.get("out_text", "")) else "stale-shorter")))
@@ -643,10 +768,18 @@ def eval_cases(chk, cases, light=False):
             continue
         if im["in_entries"] != tg:
             if c["truth"] is not None:
-                chk.spec_violation("input-parse", dict(info, impl=im["in_entries"], expected=tg,
-                                                       clause="reader does not recover names/sequences of the input"))
+                chk.spec_violation("input-parse:text-before-first-record" if text_before_first_record(c)
+                                   else "input-parse",
+                                   dict(info, impl=im["in_entries"], expected=tg,
+                                        clause="reader does not recover names/sequences of the input"))
             else:
                 chk.corr_break("c18-parse", dict(info, impl=im["in_entries"], model=mt))
+            continue
+        if not tg and (im["out_text"] != "" or im["draws"]):
+            # `C18_no_record_input_writes_empty_file`
+            chk.spec_violation("no-record-input", dict(info, impl=im["out_text"], draws=len(im["draws"]),
+                                                       clause="an input without any record must give an empty "
+                                                       "output file and no generator call"))
             continue
         sp = spec_out[k] if not general else "ok"
         if sp != "ok":
@@ -665,6 +798,17 @@ def eval_cases(chk, cases, light=False):
                                dict(info, impl=im["out_text"], impl_entries=im["out_entries"], expected=tg,
                                     clause=sf + " (file-level checker, sites of " + c["regex"] + ")"))
             continue
+        # ---- (J) second call: the file just written is (part of) the input of a follow-up call ------
+        if c.get("chain") and im["out_entries"] and in_scope(im["out_entries"]):
+            mode = c["npseed"] % 3
+            fu = dict(c, files=[im["out_text"]], truth=[list(e) for e in im["out_entries"]], layout=None, chain=False,
+                      klass="second-call", stale=None, out_is_input=(mode == 2), eol="\\n", script=None,
+                      multiline=any(len(q) > 70 for _, q in im["out_entries"]), argform="list", dup=None)
+            if mode == 1 and c["truth"] is not None and c.get("layout") is not None:
+                fu["files"] = fu["files"] + list(c["files"])
+                fu["truth"] = fu["truth"] + [list(e) for e in tg]
+                fu["eol"] = c["eol"]
+            followups.append(fu)
         # ---- model ---------------------------------------------------------------------------
         if mt != tg:
             chk.corr_break("c18-parse", dict(info, impl=im["in_entries"], model=mt))
@@ -722,6 +866,8 @@ def eval_cases(chk, cases, light=False):
             chk.corr_break("c18-mkdecoys", dict(info, impl=im["out_text"], model=mo, draws=im["draws"]))
         elif a_str(mo) != im["out_text"]:
             chk.corr_break("c18-mkdecoys", dict(info, impl=im["out_text"], model=a_str(mo), draws=im["draws"]))
+    if followups:
+        eval_cases(chk, followups, light)
 
 
 def dec1(line):
@@ -776,7 +922,8 @@ def search(chk):
     rng = chk.rng
     for _ in range(10):
         eval_cases(chk, [gen_case(rng) for _ in range(300)] +
-                   [gen_case(rng, script=rng.choice(SCRIPTS)) for _ in range(20)])
+                   [gen_case(rng, script=rng.choice(SCRIPTS)) for _ in range(20)] +
+                   [gen_refused(rng) for _ in range(10)])
         if chk.spec_violations:
             return
     exhaustive(chk, 7)
@@ -849,6 +996,8 @@ def main(chk, args):
     cases += [gen_case(rng) for _ in range(2500 if quick else 25000)]
     # scripted generator states (the retry loop gives up / is entered k times / is never entered)
     cases += [gen_case(rng, script=rng.choice(SCRIPTS)) for _ in range(100 if quick else 1000)]
+    # calls the reader refuses (the output path must stay as it was)
+    cases += [gen_refused(rng) for _ in range(30 if quick else 300)]
     # a few calls that are large in one direction
     cases += [gen_case(rng, exotic_ok=False, size=sz) for _ in range(2 if quick else 10)
               for sz in ("many-records", "long-sequences")]
